@@ -294,6 +294,7 @@ def run(ck: Check):
         "harness/impl/c14_impl.py: second rounds claim what the previous REAL round returned, encoded by StickyPartitionAssignor._metadata and sent through ConsumerProtocolMemberMetadata.encode()/decode(); the op-log wrappers of C14",
         "the user-data codec is not modelled in Coq: tied by correspondence (what the real executor parsed == init_current of the claims that were sent)",
         "StickyCtl abstracts the visiting order of partitions (sorted_partitions); the members-joined clause depends on that order and is therefore only searched (exhaustively over the bounded space and two-step chains, randomly beyond), not proved",
+        "model/C15_Order.v: the candidate order of the identical-subscription branch as a predicate on (partition counts, owners of the listed candidates); which partition of a member is listed is abstracted (the code uses set.pop()); tied to the code by evaluating the predicate on the real executor's sorted_partitions (wrapper around _populate_sorted_partitions), inside Coq on a sample and by a Python mirror on all, the two compared",
     ]
     ck.cov["rule"] = (
         "every first round of C14's bounded space (<= 3 topics x (none | 0..4 partitions) x <= 3 members (thorough: 4) x every "
